@@ -273,6 +273,9 @@ def run(ctx):
     # ---------------- no holes ----------------
     must_checks(C, P)
 
+    # the mask accessor the validator relies on reads the mask of the element it was asked about (shared with C18-SIB-listing)
+    from c18 import version_base_rule
+    version_base_rule(C, P, 'C08-MUST-checks')
     return C.finish('Static non-interference proof of strict/lenient equivalence: premises R1-R5 are each checked on the MIR of every body of '
                     'autosar-data (who-reads/who-writes of ArxmlParser.strict and .warnings, def-use flow of the strict parameter, '
                     'shape of the funnel, propagation of every Result that can carry a recoverable finding), plus must-pass-through '
